@@ -155,22 +155,37 @@ func runC02(c *core.Ctx, o Options) {
 				bad = append(bad, "a rebuilt item is stored at "+an.Render(ia.Index)+", not at the position of the item it was built from")
 				return
 			}
-			r := an.Render(an.Unwrap(st.Val))
 			elem := src + "[" + an.Render(ia.Index) + "]"
-			for kind, pat := range want {
-				asserted := elem + ".(*fix." + kind + ")#0"
-				switch kind {
-				case "KeyValue":
-					if r == asserted+pat {
-						seen[kind] = true
+			// candidates: the value stored, or — when it is the result of a one-argument helper of the package applied to the
+			// element itself — what the helper returns on each of its paths, read in terms of its parameter
+			cands := [][2]string{{elem, an.Render(an.Unwrap(st.Val))}}
+			if call, ok := an.Unwrap(st.Val).(*ssa.Call); ok {
+				if cal := an.StaticCallee(&call.Call); cal != nil && cal.Pkg == fn.Pkg && len(cal.Params) == 1 && len(call.Call.Args) == 1 && an.Render(call.Call.Args[0]) == elem && cal.Signature.Results().Len() == 1 {
+					hp, _ := an.EnumPaths(cal, 64)
+					for _, p := range hp {
+						if p.Return != nil && len(p.ResVals) == 1 {
+							cands = append(cands, [2]string{cal.Params[0].Name(), an.Render(an.Unwrap(p.ResVals[0]))})
+						}
 					}
-				case "Group":
-					if r == pat+asserted+".NoTag(), "+asserted+".AsTemplate())" {
-						seen[kind] = true
-					}
-				case "Component":
-					if r == pat+asserted+".AsTemplate())" {
-						seen[kind] = true
+				}
+			}
+			for _, cd := range cands {
+				el, r := cd[0], cd[1]
+				for kind, pat := range want {
+					asserted := el + ".(*fix." + kind + ")#0"
+					switch kind {
+					case "KeyValue":
+						if r == asserted+pat {
+							seen[kind] = true
+						}
+					case "Group":
+						if r == pat+asserted+".NoTag(), "+asserted+".AsTemplate())" {
+							seen[kind] = true
+						}
+					case "Component":
+						if r == pat+asserted+".AsTemplate())" {
+							seen[kind] = true
+						}
 					}
 				}
 			}
@@ -309,6 +324,15 @@ func runC02(c *core.Ctx, o Options) {
 						bound = an.Render(bo.Y)
 						boundVal = bo.Y
 					}
+					// range lowering: the index is phi+1 and that is what is compared with the length
+					if inc, ok := ref.(*ssa.BinOp); ok && inc.Op == token.ADD && inc.X == ssa.Value(iPhi) && inc.Referrers() != nil {
+						for _, r2 := range *inc.Referrers() {
+							if bo, ok := r2.(*ssa.BinOp); ok && bo.Op == token.LSS && bo.X == ssa.Value(inc) && boundVal == nil {
+								bound = an.Render(bo.Y)
+								boundVal = bo.Y
+							}
+						}
+					}
 				}
 				isLenOfSplit := func(v ssa.Value) bool {
 					call, ok := v.(*ssa.Call)
@@ -328,6 +352,15 @@ func runC02(c *core.Ctx, o Options) {
 						if bo, ok := a.Val.(*ssa.BinOp); ok && a.Rel == "==" {
 							if (isLenOfSplit(bo.X) && bo.Y == boundVal) || (isLenOfSplit(bo.Y) && bo.X == boundVal) {
 								found = true
+							}
+							// range over the pieces themselves: the loop bound is len(pieces); the comparison with the parsed count must still be on the path
+							if isLenOfSplit(boundVal) {
+								for _, pair := range [][2]ssa.Value{{bo.X, bo.Y}, {bo.Y, bo.X}} {
+									if isLenOfSplit(pair[0]) && strings.HasSuffix(an.Render(pair[1]), ".Value.Value().(int)") {
+										found = true
+										bound = an.Render(pair[1])
+									}
+								}
 							}
 						}
 					}
@@ -415,11 +448,8 @@ func runC02(c *core.Ctx, o Options) {
 		c.Check(len(bad) == 0, "R6", "splitGroup", "pieces partition the input: each piece ends where the remainder starts; the last piece ends at the end", sg.Pos(), "upper cut = lower cut", strings.Join(bad, "; "))
 	}
 	// ---- R7 whole-slice loops with error-only early exit
-	for _, spec := range []struct{ rel, name, over string }{{"fix/encoding", "unmarshalItems", "msg"}, {"fix/encoding", "state.unmarshal", ""}} {
-		fn := c.Func(spec.rel, spec.name)
-		if fn == nil {
-			continue
-		}
+	for _, fn := range pkgFuncs(c.SSAPkg("fix/encoding")) {
+		spec := struct{ name string }{fn.Name()}
 		for _, lp := range loops(fn) {
 			inLp := map[*ssa.BasicBlock]bool{}
 			for _, b := range lp {
@@ -574,9 +604,16 @@ func checkValueExtraction(c *core.Ctx, rule string) {
 			endR := an.RenderOnPath(outer.High, p)
 			rest := an.RenderOnPath(inner, p)
 			okEnd := false
-			if hi, ok := an.ResolveOnPath(outer.High, p).(*ssa.Call); ok && an.CalleeIs(&hi.Call, "bytes", "Index") && an.ResolveOnPath(hi.Call.Args[0], p) == ssa.Value(inner) {
-				ev := &an.SeqEval{}
-				if ev.Eval(hi.Call.Args[1]).Norm().String() == "'␁'" && p.Has(an.Render(hi)+" != -1") {
+			if hi, ok := an.ResolveOnPath(outer.High, p).(*ssa.Call); ok && (an.CalleeIs(&hi.Call, "bytes", "Index") || an.CalleeIs(&hi.Call, "bytes", "IndexByte")) && an.ResolveOnPath(hi.Call.Args[0], p) == ssa.Value(inner) {
+				isSOH := false
+				if k, okk := an.ConstInt(hi.Call.Args[1]); okk && k == 1 {
+					isSOH = true
+				} else {
+					ev := &an.SeqEval{}
+					isSOH = ev.Eval(hi.Call.Args[1]).Norm().String() == "'␁'"
+				}
+				// "found" in any spelling: the path's facts entail result ≥ 0
+				if found, _ := pr.Prove(pr.Lin(hi)); isSOH && found {
 					okEnd = true
 				}
 			}
